@@ -1,5 +1,6 @@
 import AasVerif.Model.SdkData
 import AasVerif.Model.SdkJson
+import AasVerif.Model.SdkWf
 /-!
 # XML (de)serialization of the generated Python SDK on element trees
 
@@ -64,6 +65,11 @@ def pyBlank : Option Text → Bool
 
 def xmlProperty (ident : Text) : Text := lowerCamel ident
 def xmlClassName (ident : Text) : Text := lowerCamel ident
+
+/-- well-formedness needed by the XML reader on top of `MM.wf`: `xml_class_name` is injective on
+class names (C21) -/
+def MM.wfXml (mm : MM) : Bool :=
+  mm.wf && nodupB (mm.classes.map (fun c => xmlClassName c.name))
 
 /-! ## Serialization -/
 
